@@ -20,7 +20,7 @@
 (*         offY = 0, pitch = rowB = cols                                   *)
 (*                                                                         *)
 (* Events (k = kind); x y w h n are 32-bit words <<hi, lo>> (16-bit limbs) *)
-(*  init   cons w h pitch bpp ci gw gh bpr offY clear fd pal rows cols nrows *)
+(*  init   cons w h pitch bpp ci gw gh bpr offY clear dfg dbg fd pal rows cols nrows *)
 (*  write  ch fg bg x y      res d guard                                   *)
 (*  fill   x y w h fg bg     res d guard                                   *)
 (*  scroll dir n             res d guard                                   *)
@@ -86,7 +86,7 @@ Geo(e) ==
       Bpp == IF fb THEN (e.bpp + 1) \div 8 ELSE 1
       msk == IF ~fb THEN <<65535>> ELSE IF e.bpp = 8 THEN <<255>> ELSE [k \in 1..Bpp |-> MaskByte(e.ci, k - 1)]
   IN [cons |-> e.cons, w |-> e.w, h |-> e.h, pitch |-> e.pitch, bpp |-> e.bpp, ci |-> e.ci,
-      gw |-> e.gw, gh |-> e.gh, bpr |-> e.bpr, offY |-> e.offY, clear |-> e.clear,
+      gw |-> e.gw, gh |-> e.gh, bpr |-> e.bpr, offY |-> e.offY, clear |-> e.clear, dfg |-> e.dfg, dbg |-> e.dbg,
       Bpp |-> Bpp, rowB |-> e.w * Bpp, gridB |-> GridCols(e) * e.gw * Bpp, cols |-> GridCols(e), rows |-> GridRows(e),
       mask |-> msk, full |-> \A k \in 1..Bpp : msk[k] = (IF fb THEN 255 ELSE 65535)]
 
@@ -145,9 +145,12 @@ WriteCheck(g, old, got, e) ==
       out == Outside(g, old, got, e.d, r0, r0 + g.gh - 1, c0, c0 + g.gw * g.Bpp - 1, "Write changed elements outside the addressed cell")
   IN IF out # <<>> THEN out
      ELSE IF ~IsFb(g)
-     THEN LET want == VgaCell(e.ch, e.fg, e.bg)  v == got[r0 + 1][c0 + 1] IN
+     THEN \* documented (Write): a colour beyond the 16-entry palette is replaced by the console's default colour
+          LET fg == IF e.fg > 15 THEN g.dfg ELSE e.fg
+              bg == IF e.bg > 15 THEN g.dbg ELSE e.bg
+              want == VgaCell(e.ch, fg, bg)  v == got[r0 + 1][c0 + 1] IN
           IF v = want THEN <<>>
-          ELSE IF e.bg = 15 /\ v = VgaCell(e.ch, e.fg, 0)
+          ELSE IF e.bg = 15 /\ v = VgaCell(e.ch, fg, 0)
                THEN (IF "VgaWriteBg15" \in Devs THEN <<>>
                      ELSE <<"Dev_VgaWriteBg15", "text cell written with background 0 instead of the requested 15", "cell", X, Y, "got", v, "want", want>>)
           ELSE <<"Write stored the wrong text cell", "cell", X, Y, "got", v, "want", want>>
@@ -187,6 +190,9 @@ FillCheck(g, old, got, e) ==
       RowOK(r) == \/ SubSeq(got[r + 1], c0 + 1, c1 + 1) = seg
                   \/ (~g.full /\ \A i \in 1..(c1 - c0 + 1) : ElemOK(got[r + 1][c0 + i], seg[i], g.mask[((i - 1) % g.Bpp) + 1], FALSE))
   IN IF out # <<>> THEN out
+     \* text console: nothing is documented for Fill colours beyond the 4-bit attribute fields, so only the extent
+     \* of the change is constrained for them
+     ELSE IF ~IsFb(g) /\ (e.fg > 15 \/ e.bg > 15) THEN <<>>
      ELSE IF \A r \in r0..r1 : RowOK(r) THEN <<>>
      ELSE LET r == CHOOSE q \in r0..r1 : ~RowOK(q) /\ \A o \in r0..r1 : (~RowOK(o)) => q <= o
               C == {i \in 1..(c1 - c0 + 1) : ~ElemOK(got[r + 1][c0 + i], seg[i], g.mask[((i - 1) % g.Bpp) + 1], FALSE)}
